@@ -4,7 +4,7 @@
 One run: translate (tools/gotables) -> prove (full coq build) -> correspond (Go harness vs
 extracted model) -> oracle (extracted specification on the implementation's output) ->
 known findings -> verdict -> evidence.  See DESIGN.md section 2.1."""
-import importlib, json, os, sys, time
+import importlib, json, os, re, sys, time
 sys.path.insert(0, os.path.dirname(os.path.abspath(__file__)))
 import lib
 
@@ -92,6 +92,16 @@ def main():
     if not proof_ok or pstatus != "ok":
         broken.append("proof: coq/Props/%s.v (or a file it depends on) does not compile against the current source: %s" %
                       (pid, "; ".join(b.failed_files) or pstatus))
+    # thorough tier: the independent checker re-checks the compiled property file and everything it depends on
+    coqchk = None
+    if tier == "thorough" and proof_ok and os.environ.get("VERIF_NO_COQCHK") != "1":
+        r = lib.sh(["timeout", "2400", "coqchk", "-silent", "-o", "-Q", ".", "CV", "CV.Props.%s" % pid], cwd=lib.COQ)
+        out = (r.stdout or "") + (r.stderr or "")
+        m = re.search(r"\* Axioms:\s*(.*?)\n\s*\n", out, re.S)
+        coqchk = dict(exit=r.returncode, axioms=(m.group(1).strip() if m else "?")[:600],
+                      type_in_type="<none>" in out.split("type-in-type:")[-1][:20] if "type-in-type:" in out else None)
+        if r.returncode != 0:
+            broken.append("coqchk rejects CV.Props.%s: %s" % (pid, out[-600:]))
     if hygiene:
         broken.append("hygiene: " + "; ".join(hygiene[:5]))
     if b.translator_notes:
@@ -173,6 +183,8 @@ def main():
         oracle_failures_new=len(new), oracle_failures_known={k: len(v) for k, v in known_hits.items()},
         known_findings_printed=len(lines), broken=broken,
     )
+    if coqchk is not None:
+        cov["coqchk"] = coqchk
     lib.write_evidence(pid, tier, seed, cov, time.time() - t0, len(new) + (1 if rc == 1 and not new else 0),
                        assumptions=getattr(mod, "ASSUMPTIONS", {}).get(pid, []))
     return rc
